@@ -140,6 +140,11 @@ func (resp *Response) SetConnectionClose() {
 
 // SetBodyString sets response body.
 func (resp *Response) SetBodyString(body string) {
+	if resp.GetHijackWriter() != nil {
+		// the body goes where SetBody sends it: to the writer that took the response over
+		resp.SetBody(bytesconv.S2b(body))
+		return
+	}
 	resp.CloseBodyStream()            //nolint:errcheck
 	resp.BodyBuffer().SetString(body) //nolint:errcheck
 }
